@@ -29,7 +29,7 @@ func TestProp(t *testing.T) {
 		r.Inconclusive("reference self-test failed: " + err.Error())
 		return
 	}
-	r.SetRule("enumerated: etype {16,17,18,19,20,23} x plaintext length 0..130 x usage set (29 iana constants + 127,128,255,256,1024,2^31) x K seeded keys x seeded contents, " +
+	r.SetRule("enumerated: etype {16,17,18,19,20,23} x plaintext length 0..130 x usage set (29 iana constants + 127,128,255,256,1024,2^31) x K seeded keys (the last one shared byte-for-byte by all etypes of equal key length) x seeded contents, " +
 		"each in both directions (gokrb5 encrypt -> reference decrypt, reference encrypt -> gokrb5 decrypt) through crypto.GetEncryptedData/DecryptMessage and the EType interface; " +
 		"distinct = (etype,len,usage,key index); non-trivial = every case (each performs two encryptions and four decryptions)")
 	r.Assume("reference implementation ref/kcrypto written from RFC 3961/3962/8009/4757, self-tested against the RFC vectors on every run")
@@ -45,7 +45,11 @@ func TestProp(t *testing.T) {
 	var jobs []job
 	for _, et := range kcrypto.Etypes {
 		for ki := 0; ki < nkeys; ki++ {
-			jobs = append(jobs, job{et, ki, pcommon.RefKey(vh.NewRand("c05key", et, ki), et)})
+			k := pcommon.RefKey(vh.NewRand("c05key", et, ki), et)
+			if ki == nkeys-1 {
+				k = pcommon.SharedKey(et, 0) // the same bytes for every etype of equal key length
+			}
+			jobs = append(jobs, job{et, ki, k})
 		}
 	}
 	type unit struct {
